@@ -535,7 +535,12 @@ def protection_descriptor_edits(blob: bytes) -> t.Iterator[bytes]:
 
     raws = [r for o in oids for n in names for r in tryb(o, n, value)]
     sid_oid = "1.3.6.1.4.1.311.74.1.1"
-    raws += [r for v in ("", "S-1-5", "S-1-5-", "s-1-5-18", "S-1-5-18-", "S-1-5-18\x00", "S-1-" + "9" * 40 + "-1", "S-1-5" + "-1" * 300, "O:SYG:SY") for r in tryb(sid_oid, "SID", v)]
+    raws += [r for v in ("", "S-1-5", "S-1-5-", "s-1-5-18", "S-1-5-18-", "S-1-5-18\x00", "S-1-" + "9" * 40 + "-1", "S-1-5" + "-1" * 300, "O:SYG:SY",
+                        # range boundaries of the SID parts (the descriptor's SID reaches sid_to_bytes through get_target_sd)
+                        "S-1-5-4294967295", "S-1-5-4294967296", "S-1-5-4294967297", "S-1-5-21-4294967296-1", "S-1-5-18446744073709551616",
+                        "S-1-281474976710655-1", "S-1-281474976710656-1", "S-1-18446744073709551615-1", "S-1-18446744073709551616-18",
+                        "S-1-4294967296-7", "S-2-5-18", "S-1-5" + "-7" * 15, "S-1-5" + "-7" * 16, "S-1-5-" + "0" * 4301 + "18")
+             for r in tryb(sid_oid, "SID", v)]
     raws += tryb(sid_oid, "SID", value, extra_pair=True) + tryb(sid_oid, "SID", value, empty=True)
     for raw in raws:
         try:
